@@ -696,12 +696,13 @@ Proof.
   vm_compute. repeat split; reflexivity.
 Qed.
 
-(** ... and the block [s0; s1] is not forwarded at all: the code raises AssertionError ([Crash]), not
-    InvalidCursorError *)
+(** ... and the block [s0; s1] is not forwarded at all: before its repair the code raised AssertionError
+    ([Crash]); now it reports InvalidCursorError *)
 Lemma move_block_crash_refuted :
   valid_edit hull_cex_tree hull_cex_edit /\ move_pre hull_cex_edit /\
   valid_cursor hull_cex_tree (CBlock [] Body 0 2) /\
-  fwd_edit code_now hull_cex_edit hull_cex_tree (CBlock [] Body 0 2) = Crash.
+  fwd_edit code_with_asserts hull_cex_edit hull_cex_tree (CBlock [] Body 0 2) = Crash /\
+  fwd_edit code_now hull_cex_edit hull_cex_tree (CBlock [] Body 0 2) = Invalid.
 Proof. vm_compute. repeat split; reflexivity. Qed.
 
 (** hypotheses of [move_sound] are satisfiable (a move to a later gap at the block's own level, and a
